@@ -93,7 +93,7 @@ func TestC02(t *testing.T) {
 	// the quick tier, offset by the seed; all pairs in the thorough tier), each probed and compared with the model
 	fs := features()
 	var lattice []behMember
-	skip := func(i int) bool { return strings.HasPrefix(fs[i].name, "alias:equals-template-import:") } // open known finding of C01
+	skip := func(i int) bool { return strings.HasPrefix(fs[i].name, "never-skipped:") }
 	for i := range fs {
 		idx++
 		if !ev.Mine(idx) || skip(i) {
